@@ -148,6 +148,27 @@ def run_case(case):
                 badc = check_cobs_string(str(co), co, 2, plain=True)
                 if badc:
                     acc.fail('format:cobs-str', {'kind': 'one', 'v': v, 'dv_target': dv_target, 'sig': 2}, badc)
+                # a bare flag is the flag with the default two digits; imaginary (and real) parts that are +0.0 / -0.0
+                badf = None
+                for fl in ('+', ' '):
+                    for obj, nm in ((o, 'Obs'), (co, 'CObs')):
+                        try:
+                            if format(obj, fl) != format(obj, fl + '2'):
+                                badf = badf or 'format(%s, %r) = %r, format(%s, %r) = %r' % (nm, fl, format(obj, fl), nm, fl + '2', format(obj, fl + '2'))
+                        except Exception as e:
+                            badf = badf or 'format(%s, %r) raised %s: %s' % (nm, fl, type(e).__name__, e)
+                if badf:
+                    acc.fail('format:bare-flag', {'kind': 'one', 'v': v, 'dv_target': dv_target, 'sig': 2}, badf)
+                else:
+                    acc.ok(('bf', v, dv_target), True, 'flag-ok')
+                if ratio in (0.0, 1.0):
+                    for zr, zi in ((v, 0.0), (v, -0.0), (0.0, v), (-0.0, -0.0)):
+                        cz = pe.CObs(pe.cov_Obs(zr, dv_target ** 2, 'cv'), pe.cov_Obs(zi, (2 * dv_target) ** 2, 'cw'))
+                        badz = check_cobs_string(str(cz), cz, 2, plain=True) or check_cobs_string(format(cz, '3'), cz, 3) or check_cobs_string(repr(cz)[5:-1], cz, 2, plain=True)
+                        if badz:
+                            acc.fail('format:cobs-zero-part', {'kind': 'one', 'v': v, 'dv_target': dv_target, 'sig': 2, 'parts': [repr(zr), repr(zi)]}, 'CObs with parts %r, %r: %s' % (zr, zi, badz))
+                        else:
+                            acc.ok(('cz', v, dv_target, repr(zr), repr(zi)), True, 'cobs-ok')
                 # scalar views
                 bad = check_views(pe, o, val, dv)
                 if bad:
@@ -305,6 +326,8 @@ def check_cobs_string(cs, co, sig, plain=False):
         return 'real part: ' + b1
     if im_s[0] == '+':
         im_s = im_s[1:]
+        if im_s[:1] in ('+', '-'):
+            return 'complex observable prints as %r: two signs in front of the imaginary part' % cs
     b2 = check_string(im_s, float(co.imag.value), float(co.imag.dvalue), sig)
     if b2:
         return 'imaginary part: ' + b2
@@ -320,6 +343,19 @@ def check_views(pe, o, val, dv):
         exp = (val < x, val <= x, val > x, val >= x)
         if tuple(bool(g) for g in got) != exp:
             return ('ordering', 'comparisons of %r with %r give %r, expected %r' % (val, x, got, exp))
+    # ... and with other observables (distinct objects with the same / a neighbouring central value, another error, another chain)
+    # and numpy scalars, on either side
+    for x in (val, float(np.nextafter(val, np.inf)), float(np.nextafter(val, -np.inf))):
+        partners = [pe.cov_Obs(x, (3 * dv + 1e-300) ** 2, 'cview'), pe.cov_Obs(x, (0.1 * dv + 1e-300) ** 2, 'cv'), np.float64(x)]
+        for pt in partners:
+            pv = float(pt.value) if isinstance(pt, pe.Obs) else float(pt)
+            if pv != x:
+                continue
+            got = (o < pt, o <= pt, o > pt, o >= pt, pt < o, pt <= o, pt > o, pt >= o)
+            exp = (val < x, val <= x, val > x, val >= x, x < val, x <= val, x > val, x >= val)
+            if tuple(bool(g) for g in got) != exp:
+                return ('ordering', 'comparisons (<, <=, >, >=, and reflected) of %r with the %s of central value %r give %r, expected %r' % (
+                    val, 'observable' if isinstance(pt, pe.Obs) else 'numpy scalar', x, tuple(bool(g) for g in got), exp))
     if dv > 0 and val != 0:
         q = abs(val) / dv
         for sg in (q * (1 - 1e-9), q * (1 + 1e-9), q / 2, q * 2, 1, 3):
